@@ -365,6 +365,11 @@ fn gen_structured(tier: Tier, emit: Emit) {
         (Pat::Tuple(vec![pid("k"), pid("v"), e(None)], None), vec!["k", "v"]),
         (Pat::Tuple(vec![pid("a"), Pat::Tuple(vec![e(Some("inner"))], None)], None), vec!["a", "inner"]),
         (Pat::Tuple(vec![pid("a"), Pat::Tuple(vec![pid("b"), e(Some("inner"))], None)], None), vec!["a", "b", "inner"]),
+        // nested containers after a leading ellipsis are indexed from the end
+        (Pat::Tuple(vec![e(Some("others")), Pat::Tuple(vec![pid("a"), pid("b")], None), pid("z")], None), vec!["others", "a", "b", "z"]),
+        (Pat::Tuple(vec![e(None), Pat::Tuple(vec![pid("a"), pid("b")], None)], None), vec!["a", "b"]),
+        (Pat::Tuple(vec![e(None), Pat::Map(vec![(MK::Id("x".into()), None, None), (MK::Id("y".into()), None, None)])], None), vec!["x", "y"]),
+        (Pat::Tuple(vec![Pat::Tuple(vec![pid("a"), pid("b")], None), e(Some("others"))], None), vec!["a", "b", "others"]),
     ];
     // the same patterns bound to the items an iterator adaptor hands to its callback: map entries
     // and enumerate/zip pairs are temporary tuples living in registers, not heap tuples
@@ -404,6 +409,10 @@ fn gen_structured(tier: Tier, emit: Emit) {
         int(5),
         s("ab"),
         null(),
+        tuple(vec![tuple(vec![int(5), int(6)]), tuple(vec![int(7), int(8)]), tuple(vec![int(1), int(2)]), int(3)]),
+        tuple(vec![tuple(vec![int(1), int(2)])]),
+        list(vec![int(1), int(2), map(vec![("x", int(1)), ("y", int(2))])]),
+        tuple(vec![map(vec![("x", int(3)), ("y", int(4))]), map(vec![("x", int(1)), ("y", int(2))])]),
     ];
     for (pat, names) in &pats {
         for pos in 0..2 {
